@@ -527,7 +527,7 @@ func checkC18(c *Ctx, w *World) {
 			}
 			wantC = or(wantC, cs.Atom("t="+wnt))
 		}
-		succ := cs.False()
+		succ, fail := cs.False(), cs.False()
 		nNil := 0
 		for _, vr := range cs.VirtualReturns() {
 			errV := stripConv(vr.Vals[1])
@@ -536,13 +536,19 @@ func checkC18(c *Ctx, w *World) {
 				nNil++
 				succ = or(succ, vr.Cond)
 			case certainlyNonNil(errV):
+				fail = or(fail, vr.Cond)
 			default:
 				okType, whyType = false, "an exit whose error may or may not be nil: "+vstr(errV)
 			}
 		}
 		if okType {
-			if eq, wit := cs.Equiv(cs.OnlyNamed(succ), wantC); !eq {
-				okType, whyType = false, "a nil error is not returned exactly for the six names: "+wit
+			// every exit is a success or an error (classified above); successes only under the six names, errors only
+			// outside them: since the function returns on every way, this is "nil error ⇔ one of the six names"
+			if imp, wit := cs.Implies(cs.OnlyNamed(succ), wantC); !imp {
+				okType, whyType = false, "a nil error is returned for another name: "+wit
+			}
+			if imp, wit := cs.Implies(cs.OnlyNamed(fail), cs.Not(wantC)); !imp {
+				okType, whyType = false, "an error can be returned for one of the six names: "+wit
 			}
 		}
 		c.check(okType && nNil > 0, "C18.type", "ParseProbeType", p.pos(ppt.Pos()), "a nil error is returned exactly for the six literal probe types; anything else yields an error", fmt.Sprintf("probe-type parsing (names compared: %v, nil-error exits: %d): %s", sorted, nNil, whyType))
